@@ -8,7 +8,17 @@ from vf import execharness as H
 from vf.report import MachineryDefect, Run
 
 
-def compare(expected, got, arguments=True):
+def abandoned_below(world):
+    """paths of list fields whose value fails while it is consumed (world kind gen-error): what happens to the resolvers of the items already handed out -
+    in flight on a deferring runtime, abandoned when the list fails - is not specified; events strictly below such a path are not judged"""
+    return [k for k, v in (world or {}).items() if isinstance(k, tuple) and v and v[0] == "gen-error"]
+
+
+def _below(path, roots):
+    return any(len(path) > len(r) and tuple(path[:len(r)]) == r for r in roots)
+
+
+def compare(expected, got, arguments=True, ignore_below=()):
     """expected: H.reference(...) tuple; got: H.run_request(...) dict -> (clause, detail) or None; arguments=False leaves the resolver-argument
     comparison out (C05: how a custom scalar without a literal parser reads a literal is the scalar's business)"""
     kind = expected[0]
@@ -40,6 +50,9 @@ def compare(expected, got, arguments=True):
     if H.plain(res.data) != expected[1]:
         return ("execute:data-is-the-specified-result", "data %r; the specification's algorithm gives %r" % (_short(H.plain(res.data)), _short(expected[1])))
     le = H.lib_errors(res)
+    if ignore_below:
+        le = [e for e in le if e[0] is None or not _below(e[0], ignore_below)]
+        expected = (expected[0], expected[1], [e for e in expected[2] if e[0] is None or not _below(e[0], ignore_below)], expected[3])
     if le != expected[2]:
         return ("execute:one-error-per-failed-position", "errors %r; the specification's algorithm gives %r" % (le[:4], expected[2][:4]))
     # every error names each field node of its position once (a fragment collected twice would list a location twice)
@@ -49,8 +62,8 @@ def compare(expected, got, arguments=True):
             return ("execute:error-locations-are-distinct", "an error lists the same field node twice: %r" % (locs,))
     # ResolveFieldValue(objectType, objectValue, fieldName, argumentValues): every resolver is handed CoerceArgumentValues of the field
     # definition of ITS runtime object type (6.4.1), whatever was executed before it
-    want = sorted(((ev[1], H._freeze(ev[2])) for ev in expected[3].trace if ev[0] == "invoke"), key=repr)
-    have = sorted(((ev[1], H._freeze(ev[2])) for ev in got["log"] if ev[0] == "invoke"), key=repr)
+    want = sorted(((ev[1], H._freeze(ev[2])) for ev in expected[3].trace if ev[0] == "invoke" and not _below(ev[1], ignore_below)), key=repr)
+    have = sorted(((ev[1], H._freeze(ev[2])) for ev in got["log"] if ev[0] == "invoke" and not _below(ev[1], ignore_below)), key=repr)
     if arguments and want != have:
         diff = [x for x in have if x not in want][:3]
         return ("execute:resolvers-receive-the-coerced-arguments-of-their-own-field-definition",
@@ -72,7 +85,7 @@ def _chunk(items):
         for cfg in ("blocking-executor", "executor-blocking"):
             n += 1
             got = H.run_request(schema, query, variables, world, cfg, operation_name=opname)
-            bad = compare(exp, got)
+            bad = compare(exp, got, ignore_below=abandoned_below(world))
             if bad:
                 fails.append((bad[0], {"query": query, "variables": variables, "world": wname, "config": cfg}, bad[1]))
     return n, nontriv, fails
